@@ -217,3 +217,5 @@ def run(cx):
     _run_grade(cx)
     # the final exponentiation inverts and multiplies in Fp12: its formulas must be homogeneous of the right grade
     A.a_grade(cx, 'A-GRADE', 10, levels=('Fp12',))
+    # tangent / chord line evaluation: new point and line coefficients are weighted-homogeneous
+    A.a_lines(cx, 'A-LINE')
